@@ -70,6 +70,7 @@ R_IM = [
     ('R14.try', r'try\s*\{(.*?)\}\s*catch\s*\(\.\.\.\)\s*\{[^}]*\}', r'{\1}', False),        # normal path only (DESIGN R14)
     ('R13.tmp_swap', lower_tmp_swap, None, False),
     ('R12.view_ctor', lower_view_ctor, None, False),
+    ('R8.max_align', r'alignof\(std::max_align_t\)', 'MAX_ALIGN_T_ALIGN', False),
     ('R8.drop_using_xit', r'using x_iterator = typename view_t::x_iterator;', '', False),
     ('R8.channels', r'constexpr std::size_t _channels_in_image =\s*std::conditional\s*<.*?>::type::value;', 'const size_t _channels_in_image = NUM_CHANNELS;', False),
     ('R8.b2m', r'byte_to_memunit<\s*(?:typename view_t::)?x_iterator\s*>::value', 'BYTE_TO_MEMUNIT', False),
@@ -432,6 +433,7 @@ PROBE = r'''
   P_VAL("NUM_CHANNELS", (long long)num_channels<view_t>::value);
   P_VAL("IS_PLANAR", (long long)is_planar<view_t>::value);
   P_VAL("ACCESS_SPAN", (long long)ACCESS_SPAN_EXPR);
+  P_VAL("MAX_ALIGN_T_ALIGN", (long long)alignof(std::max_align_t));
 #ifdef BOOST_NO_CXX17_HDR_MEMORY_RESOURCE
   P_VAL("PPDEF_BOOST_NO_CXX17_HDR_MEMORY_RESOURCE", 1);
 #else
